@@ -81,7 +81,7 @@ Hypothesis Hpvt : okl pvt.
 Lemma aa_loop_legal : forall n s g out seen,
   SJ s -> GJ basis p seen g ->
   let r := aa_loop false basis cfg k d v pm pvt n s g out in
-  SJ (fst r) /\ exists tails, snd r = out ++ tails /\ Forall (fun l => head_ok basis p l /\ okl l) tails.
+  SJ (fst (fst r)) /\ exists tails, snd (fst r) = out ++ tails /\ Forall (fun l => head_ok basis p l /\ okl l) tails.
 Proof.
   induction n; intros s g out seen HS G; cbv zeta; cbn [aa_loop].
   { cbn [fst snd]. split; [exact HS|]. exists []. rewrite app_nil_r. split; [reflexivity|constructor]. }
@@ -97,6 +97,8 @@ Proof.
   cbv zeta in R.
   destruct (srch false basis cfg k 40 false (set_fm s 0 m) q 1 (d - 1) pvt (- v - 1) (- v + 1) true) as [s1 [msc cv]].
   cbn [fst snd] in R. destruct R as (HS1 & Hmsc & _).
+  destruct (negb false && cancelled k s1).
+  { cbn [fst snd]. split; [exact HS1|]. exists []. rewrite app_nil_r. split; [reflexivity|constructor]. }
   destruct (negb (- cv =? v)); [apply (IHn s1 g' out (q :: seen) HS1 G')|].
   destruct (move_equal m pm); [apply (IHn s1 g' out (q :: seen) HS1 G')|].
   destruct (IHn s1 g' (out ++ [m :: msc]) (q :: seen) HS1 G') as (A & tails & B & C).
@@ -145,7 +147,7 @@ Proof.
                 (gfuel (new_gen s1 None (pm :: pvt) 0 d1 p)) s1 (new_gen s1 None (pm :: pvt) 0 d1 p) [pm :: pvt] []
                 HS1 (GJ_new basis p s1 None (pm :: pvt) 0 d1 ltac:(intros i F; discriminate F) Hpv)) as R.
   cbv zeta in R, H.
-  destruct (aa_loop false basis cfg k d1 v1 pm pvt (gfuel (new_gen s1 None (pm :: pvt) 0 d1 p)) s1 (new_gen s1 None (pm :: pvt) 0 d1 p) [pm :: pvt]) as [s2 out].
+  destruct (aa_loop false basis cfg k d1 v1 pm pvt (gfuel (new_gen s1 None (pm :: pvt) 0 d1 p)) s1 (new_gen s1 None (pm :: pvt) 0 d1 p) [pm :: pvt]) as [[s2 out] brk].
   cbn [fst snd] in R. destruct R as (HS2 & tails & -> & TL). inversion H; subst.
   split; [exact HS2|]. cbn [app]. split; [discriminate|]. split; [exact LINE|exact TL].
 Qed.
